@@ -186,7 +186,7 @@
 // 'maxsize'
 static inline unsigned int safec_strnlen_s(const char *str, size_t maxsize) {
     const char *s;
-    for (s = str; *s && maxsize--; ++s)
+    for (s = str; maxsize && *s; ++s, --maxsize)
         ;
     return (unsigned int)(s - str);
 }
@@ -1321,7 +1321,8 @@ int safec_vsnprintf_s(out_fct_type out, const char *funcname, char *buffer,
                     invoke_safe_str_constraint_handler(msg, buffer, ESNULLP);
                     return -(ESNULLP);
                 }
-                l = safec_strnlen_s(p, precision ? precision : (size_t)-1);
+                l = safec_strnlen_s(p, (flags & FLAGS_PRECISION) ? precision
+                                                                 : (size_t)-1);
             }
             if (l + idx > bufsize) {
                 char msg[80];
